@@ -34,6 +34,19 @@ def capture(net, ac=True, **kw):
         box["n_gen_tab"] = len(net.gen.index)
         box["gen_index"] = [int(i) for i in net.gen.index]
         box["dcl_index"] = [int(i) for i in net.dcline.index]
+        # the generators _add_dcline_gens created (to-bus gen, from-bus gen per dcline) and what _get_gen_index
+        # returns for every cost key while they exist
+        box["aux_gens"] = [int(i) for i in ((net.get("_aux_elements", None) or {}).get("gen", []) or [])]
+        box["dcl_from_bus"] = [int(b) for b in net.dcline.from_bus.values]
+        from pandapower.opf.make_objective import _get_gen_index
+        rows = []
+        for tab in (net.poly_cost, net.pwl_cost):
+            for et, el in zip(tab.et.values, tab.element.values):
+                try:
+                    rows.append((str(et), int(el), _get_gen_index(net, et, el)))
+                except Exception as e:
+                    rows.append((str(et), int(el), type(e).__name__))
+        box["gen_rows"] = rows
         box["gen_order"] = dict(net._gen_order)
         box["gen_table"] = net.gen.copy()
         box["options"] = dict(net._options)
@@ -75,7 +88,7 @@ def capture(net, ac=True, **kw):
 
 
 def gen_net(rng, pwl=False, oos=0.15, gap=0.4, quad=True, ndc_max=2, q_cost=True, controllable_cols=False,
-            tight=False, sn_choices=(1.0,)):
+            tight=False, sn_choices=(1.0,), areas=(1, 2, 2, 3)):
     """returns net.  All numbers are dyadic (k/8 etc.); net.sn_mva is drawn from sn_choices."""
     net = pp.create_empty_network(sn_mva=float(rng.choice(list(sn_choices))))
     nb = rng.randint(2, 5)
@@ -150,7 +163,7 @@ def gen_net(rng, pwl=False, oos=0.15, gap=0.4, quad=True, ndc_max=2, q_cost=True
             continue
         as_pwl = pwl and (not both or rng.random() < 0.6)
         if as_pwl:
-            nseg = rng.choice([1, 2, 2, 3])
+            nseg = rng.choice(list(areas))
             lo = rng.choice([-2.0, 0.0, 0.0, 0.5])
             if et == "ext_grid":
                 lo = -50.0
